@@ -187,6 +187,7 @@ func liveOf(s *model.Store, bucket, key string) *model.Entity {
 func (r *Run) examineCrashes() {
 	saveEnv, saveM := r.Env, r.M
 	defer func() { r.Env, r.M = saveEnv, saveM }()
+	var atomicViol *[3]string // the first in-flight write found half there (reported after every kill point has been examined)
 	for i, cp := range r.crashes {
 		post := cp.pre
 		if cp.op != nil && cp.op.post != nil {
@@ -296,6 +297,22 @@ func (r *Run) examineCrashes() {
 				if k := post.Buckets[bn]; k != nil && k.Keys[kn] != nil && k.Keys[kn].Indet {
 					continue
 				}
+				// Whatever a kill leaves of a key, the store describes what it
+				// serves: the ETag is the MD5 of the bytes of the same answer,
+				// and the listing shows that size and ETag.  (Atomicity - which
+				// bytes - is judged below; this is "never garbage".)
+				if ks.Status == 200 {
+					if ks.ETag != ks.MD5 {
+						r.closeCrashEnv(env, dir)
+						r.fail("crash.coherent", fmt.Sprintf("after a kill an object is served with an ETag that is not the MD5 of the bytes served (in-flight %s) %s", inflightKind(cp), r.bctx()),
+							"ETag = MD5 of the body", fmt.Sprintf("%s: %s/%q read %s", cp.where, bn, kn, ks))
+					}
+					if l, ok := listed[kn]; ok && l != fmt.Sprintf("%d|\"%s\"", ks.Size, ks.MD5) {
+						r.closeCrashEnv(env, dir)
+						r.fail("crash.coherent", fmt.Sprintf("after a kill the listing shows another size or ETag for an object than a read returns (in-flight %s) %s", inflightKind(cp), r.bctx()),
+							fmt.Sprintf("%d|\"%s\"", ks.Size, ks.MD5), fmt.Sprintf("%s: %s/%q listed %q", cp.where, bn, kn, l))
+					}
+				}
 				okState := entityMatches(ks, ePre) || entityMatches(ks, ePost)
 				if inPre && !inPost {
 					// the in-flight operation deletes this bucket (a forced
@@ -321,22 +338,34 @@ func (r *Run) examineCrashes() {
 				} else if ePre == nil {
 					what = "a key that was never acknowledged appears after a kill"
 				}
-				r.closeCrashEnv(env, dir)
 				sig := fmt.Sprintf("%s (%s) %s", what, crashClass(cp), r.bctx())
+				exp, obs := fmt.Sprintf("%s/%q = %s or %s", bn, kn, descEnt(ePre), descEnt(ePost)), fmt.Sprintf("%s: read %s, listed %q", cp.where, ks, listed[kn])
 				if cl == "crash.atomic" {
 					// one finding per backend class and kind of operation, wherever the kill lands
 					sig = fmt.Sprintf("%s (in-flight %s) %s", what, inflightKind(cp), r.bctx())
+					// The remaining kill points are still examined: a loss of
+					// acknowledged data, a store that does not open or an
+					// object served with another object's description weighs
+					// more than an in-flight write that is half there.
+					if atomicViol == nil {
+						atomicViol = &[3]string{sig, exp, obs}
+					}
+					continue
 				}
-				r.fail(cl, sig,
-					fmt.Sprintf("%s/%q = %s or %s", bn, kn, descEnt(ePre), descEnt(ePost)), fmt.Sprintf("%s: read %s, listed %q", cp.where, ks, listed[kn]))
+				r.closeCrashEnv(env, dir)
+				r.fail(cl, sig, exp, obs)
 			}
 		}
 		r.closeCrashEnv(env, dir)
 		r.ok("crash.opens")
 		r.ok("crash.acked")
-		if cp.op != nil {
+		r.ok("crash.coherent")
+		if cp.op != nil && atomicViol == nil {
 			r.ok("crash.atomic")
 		}
+	}
+	if atomicViol != nil {
+		r.fail("crash.atomic", atomicViol[0], atomicViol[1], atomicViol[2])
 	}
 }
 
